@@ -160,6 +160,31 @@ fn yuv_levels_oracle(out: &mut Out) {
     }
 }
 
+/// implementation-only oracle: the chroma pairing of the sub-sampled and bi-planar formats does not depend on the requested
+/// channel layout, also on rows wider than the 3072-byte conversion buffer (every chunk boundary must fall between cells)
+fn wide_pairing_oracle(out: &mut Out, rng: &mut Rng) {
+    for fi in 35..45usize {
+        let (format, name) = FORMATS[fi];
+        let native = format.channels();
+        for (p, w) in [(0usize, 1400u32), (1, 702), (2, 350), (0, 1026), (2, 258)] {
+            let h = 2u32;
+            let data: Vec<u8> = (0..surface_len(fi, w, h)).map(|_| rng.next() as u8).collect();
+            let Some(base) = decode_native(fi, PRECS[p], w, h, &data, None) else { println!("IMPL-VIOLATION wide decode failed: {name} {w}x{h}"); continue; };
+            let nn = native.count() as usize;
+            for to in [Channels::Rgba, Channels::Rgb, Channels::Grayscale] {
+                if to == native { continue; }
+                let Some(got) = decode_native(fi, PRECS[p], w, h, &data, Some(to)) else { println!("IMPL-VIOLATION wide decode failed: {name} {w}x{h} to {:?}", to); continue; };
+                let tn = to.count() as usize;
+                out.count("wide_pairing_oracle");
+                // colour channels shared by both layouts must agree pixel by pixel (grey = first channel of a colour format)
+                let shared = if to == Channels::Grayscale || native == Channels::Grayscale { 1 } else { 3.min(nn).min(tn) };
+                let bad = (0..(w * h) as usize).find(|&i| (0..shared).any(|c| base[i * nn + c] != got[i * tn + c]));
+                if let Some(i) = bad { println!("IMPL-VIOLATION {name} {w}x{h} precision {p}: pixel {} decodes differently into {:?} than into the native layout", i, to); }
+            }
+        }
+    }
+}
+
 pub fn run(out: &mut Out, tier: &str, seed: u64, corpus: Option<&str>) {
     let thorough = tier == "thorough";
     let mut rng = Rng::new(seed ^ 0xC04);
@@ -182,6 +207,7 @@ pub fn run(out: &mut Out, tier: &str, seed: u64, corpus: Option<&str>) {
     float_ops(out, thorough, &mut rng);
     half_oracle(out);
     yuv_levels_oracle(out);
+    wide_pairing_oracle(out, &mut rng);
     let sp = f32_specials();
     // ---- pixel formats (ids 0..34): K pixels in one row
     for fi in 0..35usize {
